@@ -18,4 +18,8 @@ pub assume_specification<T> [::core::mem::drop::<T>] (x: T);
 // for String the result is the string itself (ASSUMED)
 pub broadcast axiom fn axiom_to_string_string(s: &String, r: String)
     ensures #[trigger] vstd::string::to_string_from_display_ensures::<String>(s, r) ==> r@ == s@;
+pub broadcast axiom fn axiom_to_string_refref(s: &&&String, r: String)
+    ensures #[trigger] vstd::string::to_string_from_display_ensures::<&&String>(s, r) ==> r@ == (***s)@;
+pub broadcast axiom fn axiom_to_string_ref(s: &&String, r: String)
+    ensures #[trigger] vstd::string::to_string_from_display_ensures::<&String>(s, r) ==> r@ == (**s)@;
 pub broadcast group group_shown { axiom_to_string_string }
